@@ -177,6 +177,20 @@ pub fn summarize(p: &Payload) -> String {
             u.type_compatibility.len(),
             u.canonical_tuples.len()
         ),
+        // an effect completion can carry megabytes (a read at the binary size limit): describe it by
+        // length and content hash instead of rendering every byte
+        Payload::Cmd(Command::EffectCompletion { process_id, result: Ok(v), heap }) if heap.iter().any(|h| h.len() > 65536) => {
+            let mut f = crate::rng::Fnv::default();
+            for h in heap {
+                f.u64(h.len() as u64);
+                for chunk in h.chunks(8) {
+                    let mut b = [0u8; 8];
+                    b[..chunk.len()].copy_from_slice(chunk);
+                    f.u64(u64::from_le_bytes(b));
+                }
+            }
+            format!("EffectCompletion{{pid:{process_id},value:{:?},heap_lens:{:?},heap_hash:{:x}}}", v, heap.iter().map(|h| h.len()).collect::<Vec<_>>(), f.0)
+        }
         Payload::Cmd(c) => trim(format!("{:?}", c)),
         Payload::Evt(Event::SubscriptionUpdate { subscription_id, worker_id, .. }) => {
             format!("SubscriptionUpdate{{id:{subscription_id},w:{worker_id}}}")
